@@ -10,6 +10,7 @@ pub mod util;
 
 mod c06_key;
 mod single;
+pub mod c07_dup;
 mod c17_nonacq;
 mod probe;
 pub mod col;
